@@ -130,9 +130,14 @@ pub fn eval_from_bytes_bitcoin(bytes: &[u8], version_id: u8) -> EvaluatedScript 
 
     // For OP_RETURN and provably unspendable scripts there is no point in parsing the address
     if script.is_op_return() {
-        // OP_RETURN 13 <data>
-        let data = String::from_utf8(script.to_bytes().into_iter().skip(2).collect());
-        let pattern = ScriptPattern::OpReturn(data.unwrap_or_else(|_| String::from("")));
+        // OP_RETURN <data>: the payload is the content of the push following OP_RETURN
+        let data = match script.instructions().nth(1) {
+            Some(Ok(Instruction::PushBytes(bytes))) => {
+                String::from_utf8(bytes.as_bytes().to_vec()).unwrap_or_default()
+            }
+            _ => String::new(),
+        };
+        let pattern = ScriptPattern::OpReturn(data);
         return EvaluatedScript::new(None, pattern);
     } else if is_provable_unspendable(script) {
         return EvaluatedScript::new(None, ScriptPattern::Unspendable);
